@@ -10,7 +10,22 @@ def locking(pid, nq=320, nt=6000, blocks=14):
     return runs([{'family': 'locking', 'n': nq, 'shards': 16, 'param': f'proj={pid},blocks={blocks}'}],
                 [{'family': 'locking', 'n': nt, 'shards': 64, 'param': f'proj={pid},blocks={blocks+10}'}])
 
+BRIDGE_RULE = ('histories over the real relayer + bitcoin keepers: voted messages (block hashes, new key, process / replace withdrawal, '
+  'consolidation) with real BLS aggregate signatures in 15 vote variants (honest, too few, marks beyond the voter list, mark without signature, '
+  'extra signer, wrong seq/epoch/method/payload/chain/proposer, odd / wide bitmaps, garbage signature), verbatim replays of accepted votes, deposits '
+  '(v0/v1, both key types, aliased positions, truncated proofs, duplicates), withdrawals (request/RBF/cancel/process/replace/finalise/approve), '
+  'parameter requests, hand-over, voter add/remove/registration with real possession proofs, proposer acceptance, elections; '
+  'distinct = distinct op-shape signatures of a history')
+def bridge(pid, nq=160, nt=4000, ops=45):
+    return runs([{'family': 'bridge', 'n': nq, 'shards': 16, 'param': f'proj={pid},ops={ops}'}],
+                [{'family': 'bridge', 'n': nt, 'shards': 64, 'param': f'proj={pid},ops={ops+25}'}])
+SYMBOLIC = ['BLS/ECDSA verification is symbolic in the model: a signature is (signer key ids, signed bytes); agg_verify succeeds iff the collected key multiset equals the signer multiset and the bytes equal the sign-doc (idealised unforgeability, no rogue keys)',
+            'SHA-256 is an abstract parameter H in every theorem; the correspondence run instantiates it with the executable Crypto/Sha256.v']
+
 PROPS = {
+ 'C01': {'runs': bridge('C01'), 'monitor_props': ['C01'], 'rule': BRIDGE_RULE, 'assumptions': SYMBOLIC},
+ 'C02': {'runs': bridge('C02'), 'monitor_props': ['C02'], 'rule': BRIDGE_RULE, 'assumptions': SYMBOLIC,
+         'partial': 'cross-context binding of sign-docs (injectivity of the concatenation up to a hash collision) is argued in DESIGN.md, not yet a Coq theorem'},
  'C11': {
    'runs': locking('C11'),
    'monitor_props': ['C11'],
